@@ -7,9 +7,9 @@ import numpy as np
 
 from harness.common import s2q, run_driver, lean_obligations
 
-MODULE = 'Ndt.Props.C03'
+MODULE = 'Ndt.Props.C03Complex'
 THEOREMS = ['Ndt.jacRavel2_length', 'Ndt.jacobian_layout2', 'Ndt.jacobian_step_layout', 'Ndt.jacobian_layout3', 'Ndt.jacobian_shapes',
-            'Ndt.jacobian_affine_exact', 'Ndt.derivative_exact_on_polynomials', 'Ndt.flat_gather']
+            'Ndt.jacobian_affine_exact', 'Ndt.derivative_exact_on_polynomials', 'Ndt.flat_gather', 'Ndt.jacobian_affine_exact_complex', 'Ndt.directionaldiff_exact']
 METHODS = ['central', 'forward', 'backward', 'complex', 'multicomplex']
 TOL_AFFINE = 1e-9
 
